@@ -362,13 +362,14 @@ func genC08(env *core.Env, emit func(core.Case)) {
 type stallConn struct {
 	mu       sync.Mutex
 	data     []byte
-	deadline chan struct{}
+	deadline chan struct{} // read deadline passed
+	wdl      chan struct{} // write deadline passed
 	once     sync.Once
 	closed   chan struct{}
 }
 
 func newStallConn(prefix []byte) *stallConn {
-	return &stallConn{data: slices.Clone(prefix), deadline: make(chan struct{}), closed: make(chan struct{})}
+	return &stallConn{data: slices.Clone(prefix), deadline: make(chan struct{}), wdl: make(chan struct{}), closed: make(chan struct{})}
 }
 
 func (c *stallConn) Read(b []byte) (int, error) {
@@ -395,7 +396,7 @@ func (c *stallConn) Read(b []byte) (int, error) {
 // has passed, the conn is closed, or (after 5 s) the harness gives up.
 func (c *stallConn) Write(b []byte) (int, error) {
 	c.mu.Lock()
-	d := c.deadline
+	d := c.wdl
 	c.mu.Unlock()
 	select {
 	case <-d:
@@ -412,26 +413,40 @@ func (c *stallConn) Close() error {
 }
 func (c *stallConn) LocalAddr() net.Addr  { return &net.TCPAddr{} }
 func (c *stallConn) RemoteAddr() net.Addr { return &net.TCPAddr{} }
-func (c *stallConn) SetDeadline(t time.Time) error {
-	c.mu.Lock()
-	defer c.mu.Unlock()
+func setDl(ch *chan struct{}, t time.Time) {
 	passed := false
 	select {
-	case <-c.deadline:
+	case <-*ch:
 		passed = true
 	default:
 	}
 	if t.IsZero() {
 		if passed {
-			c.deadline = make(chan struct{}) // deadline cleared: I/O blocks again
+			*ch = make(chan struct{}) // deadline cleared: I/O blocks again
 		}
 	} else if !t.After(time.Now().Add(time.Millisecond)) && !passed {
-		close(c.deadline)
+		close(*ch)
 	}
+}
+func (c *stallConn) SetDeadline(t time.Time) error {
+	c.mu.Lock()
+	defer c.mu.Unlock()
+	setDl(&c.deadline, t)
+	setDl(&c.wdl, t)
 	return nil
 }
-func (c *stallConn) SetReadDeadline(t time.Time) error  { return c.SetDeadline(t) }
-func (c *stallConn) SetWriteDeadline(t time.Time) error { return nil }
+func (c *stallConn) SetReadDeadline(t time.Time) error {
+	c.mu.Lock()
+	defer c.mu.Unlock()
+	setDl(&c.deadline, t)
+	return nil
+}
+func (c *stallConn) SetWriteDeadline(t time.Time) error {
+	c.mu.Lock()
+	defer c.mu.Unlock()
+	setDl(&c.wdl, t)
+	return nil
+}
 
 func repeatU16(pat []uint16, n int) []uint16 {
 	var out []uint16
